@@ -53,10 +53,37 @@ func c12R1(c *Ctx, r *Report) {
 		var problems []string
 		brs := callsIn(fn, "binary.Read")
 		rfs := callsIn(fn, "io.ReadFull")
-		if len(brs) != 1 || len(rfs) != 1 {
-			problems = append(problems, fmt.Sprintf("%d binary.Read and %d io.ReadFull calls; a stream message must be read as length prefix + body", len(brs), len(rfs)))
-		} else {
-			br, rf := brs[0].(*ssa.Call), rfs[0].(*ssa.Call)
+		// the prefix is read either with binary.Read into a uint16, or with io.ReadFull into two octets that are then
+		// decoded big-endian (what binary.Read does for a *uint16)
+		var br, rf *ssa.Call
+		var isLenLoad func(v ssa.Value) bool
+		constLen2 := func(buf ssa.Value) bool {
+			v := buf
+			for {
+				if sl, ok := v.(*ssa.Slice); ok && sl.Low == nil {
+					if sl.High != nil {
+						if k, isK := constIntOf(sl.High); !isK || k != 2 {
+							break
+						}
+					}
+					v = sl.X
+					continue
+				}
+				break
+			}
+			switch t := v.(type) {
+			case *ssa.MakeSlice:
+				k, ok := constIntOf(t.Len)
+				return ok && k == 2
+			case *ssa.Alloc:
+				arr, ok := t.Type().Underlying().(*types.Pointer).Elem().Underlying().(*types.Array)
+				return ok && arr.Len() == 2
+			}
+			return false
+		}
+		switch {
+		case len(brs) == 1 && len(rfs) == 1:
+			br, rf = brs[0].(*ssa.Call), rfs[0].(*ssa.Call)
 			// length cell: *uint16
 			var cell ssa.Value
 			data := br.Call.Args[2]
@@ -77,6 +104,49 @@ func c12R1(c *Ctx, r *Report) {
 			}) {
 				problems = append(problems, "the length prefix is not read big-endian")
 			}
+			isLenLoad = func(v ssa.Value) bool {
+				u, ok := v.(*ssa.UnOp)
+				return ok && u.Op == token.MUL && u.X == cell
+			}
+		case len(brs) == 0 && len(rfs) == 2:
+			a, b := rfs[0].(*ssa.Call), rfs[1].(*ssa.Call)
+			if constLen2(b.Call.Args[1]) && !constLen2(a.Call.Args[1]) {
+				a, b = b, a
+			}
+			if !constLen2(a.Call.Args[1]) || constLen2(b.Call.Args[1]) {
+				problems = append(problems, "two io.ReadFull calls, but not one into a two-octet prefix buffer and one into the body")
+				break
+			}
+			br, rf = a, b
+			prefixBuf := sliceOf(br.Call.Args[1])
+			decoded := false
+			isLenLoad = func(v ssa.Value) bool {
+				call, ok := v.(*ssa.Call)
+				if !ok || !strings.HasSuffix(calleeNameSSA(&call.Call), "bigEndian).Uint16") || len(call.Call.Args) == 0 {
+					return false
+				}
+				for o := range sliceOf(call.Call.Args[len(call.Call.Args)-1]) {
+					if _, isAlloc := o.(*ssa.Alloc); isAlloc && prefixBuf[o] {
+						return true
+					}
+					if _, isMk := o.(*ssa.MakeSlice); isMk && prefixBuf[o] {
+						return true
+					}
+				}
+				return false
+			}
+			allInstrs(fn, func(in ssa.Instruction) {
+				if v, ok := in.(ssa.Value); ok && isLenLoad(v) {
+					decoded = true
+				}
+			})
+			if !decoded {
+				problems = append(problems, "the two prefix octets are not decoded with binary.BigEndian.Uint16")
+			}
+		default:
+			problems = append(problems, fmt.Sprintf("%d binary.Read and %d io.ReadFull calls; a stream message must be read as length prefix + body", len(brs), len(rfs)))
+		}
+		if br != nil && rf != nil && isLenLoad != nil {
 			// same reader
 			same := func(a, b ssa.Value) bool {
 				ua, ub := a, b
@@ -112,10 +182,6 @@ func c12R1(c *Ctx, r *Report) {
 				problems = append(problems, "the body is read before the length prefix")
 			}
 			// buffer of exactly `length` octets
-			isLenLoad := func(v ssa.Value) bool {
-				u, ok := v.(*ssa.UnOp)
-				return ok && u.Op == token.MUL && u.X == cell
-			}
 			exact := false
 			switch b := rf.Call.Args[1].(type) {
 			case *ssa.MakeSlice:
